@@ -35,6 +35,7 @@ BOUNDS = {"quick": "10 variable-transform settings, full cross with the other al
 V = 2
 X_EVAL = np.array([[0.5, 1.0], [2.5, -0.5]])
 X_OPT = np.array([1.5, 0.75])
+X_OPT2 = np.array([0.25, -1.25])
 LIN_ROWS = [[1.0, 2.0], [0.0, 3.0], [-2.0, 1.0]]
 LIN_KINDS = ["eq", "lower", "upper", "two", "free"]
 BOUND_KINDS = {"none": None, "both": ([-1.0, -2.0], [3.0, 2.0]), "mixed": ([-1.0, -np.inf], [np.inf, 2.0])}
@@ -47,9 +48,10 @@ def var_transform_settings(tier: str) -> list[tuple[Any, Any]]:
         full.append(([a[0], b[0]], [a[1], b[1]]))
     full.append(([0.5, 4.0], None))
     full.append((None, [3.0, -1.0]))
+    full.append(([4, 2], [0.0, -1.0]))  # scales written as integers (integer-dtype array)
     if tier == "thorough":
         return full
-    picks = [0, 7, 14, 21, 28, 35, 36, 37, 10, 25]
+    picks = [0, 7, 14, 21, 28, 35, 36, 37, 38, 10]
     return [full[i] for i in picks]
 
 
@@ -111,7 +113,10 @@ def run_both_steps(config: dict[str, Any], transforms: Any, fail: bool = False) 
     to_opt = (lambda x: x) if transforms is None or transforms.variables is None else transforms.variables.to_optimizer
     plan.run_step(ev_step, config=copy.deepcopy(config), transforms=transforms, variables=to_opt(X_EVAL))
     cfg = copy.deepcopy(config)
-    cfg["optimizer"] = {"method": "verif/scripted", "options": {"script": [[list(to_opt(X_OPT)), True, True]]}}
+    # functions + gradients in one request, then - at another point - functions and gradients in separate requests (what
+    # a gradient-based back-end does without speculative evaluation)
+    cfg["optimizer"] = {"method": "verif/scripted", "options": {"script": [
+        [list(to_opt(X_OPT)), True, True], [list(to_opt(X_OPT2)), True, False], [list(to_opt(X_OPT2)), False, True]]}}
     plan.run_step(opt_step, config=cfg, transforms=transforms)
     validated = validate(config, transforms)
     return {"rows": [c.variables for c in evaluator.calls], "events": events, "config": validated}
